@@ -1648,6 +1648,9 @@ func (in *interp) lastNoopCommit(t int) bool {
 
 func (in *interp) boundary() {
 	in.hookChecks("operation boundary")
+	if in.own == "C08" && len(in.ws) == 0 {
+		in.checkGraveyard("operation boundary")
+	}
 	if in.obs != nil {
 		in.obs.publish()
 		in.drainObserver()
